@@ -680,6 +680,10 @@ class PteraTransformer(NodeTransformer):
         # (and __ptera_* names would be mangled inside a class body).
         return node
 
+    def visit_AsyncFunctionDef(self, node):
+        # A nested coroutine is left alone, like any nested function
+        return node
+
     def visit_For(self, node):
         new_body = self.generate_interactions(node.target)
         new_body.extend(self.visit_body(node.body))
